@@ -124,9 +124,12 @@ CLAIMED = {
         'ARPACK\'s range, mu ascending negative => lambda ascending positive, Cayley selection of the smallest positive multipliers for a '
         'sub-critical load, uniqueness of the ascending lowest-k list (sparse = dense at contract level), scaling law. Tie: raw solver outputs '
         'recorded by monkey-patching and fed to the model through the driver; residual/order/agreement/scaling predicates on the implementation; '
-        'solver contract validated per sample. Two genuine defects repaired (shape mismatch, k not re-capped).',
+        'solver contract validated per sample. Two genuine defects repaired (shape mismatch, k not re-capped). '
+        'ConeCyl.lb, the third copy of the glue, has its own model (Model/ConeLb.lean: sliced matrices, uncapped request, a third attempt in buckling '
+        'mode, zero rows for the prescribed amplitudes, pencil per combined_load_case) with theorem cone_lb_pairs (it reduces to lb + row stacking) '
+        'and is tied by the same recorded-solver correspondence on small shells of 9 models, all combined load cases, cylinders and cones.',
    note='Trusted: Lean kernel, Mathlib, hand model (tied on explored cases), ARPACK/LAPACK accuracy as recorded contract (validated per sample), '
-        'ConeCyl.lb glue not modelled, rounding not modelled.',
+        'rounding not modelled.',
    technique='Lean 4 proof over hand model with solver as parameter + driver correspondence + predicates', ref='4/C05'),
  'C06': dict(
    text='Same for analysis.freq / Panel.freq: eigs/eig as parameters; exact model of the sort (stable lexsort on round-half-even keys, drop '
